@@ -11,7 +11,7 @@ PROPERTY = 'C04'
 META = {
     'level': 'exploration',
     'technique': 'runtime monitor on recorded fragment sequences (progress, size bound, status discipline, reassembly == model), exhaustive over a scaled-down (element size, tag length, start, count, budget) space',
-    'text': 'With the reply budget Logix.MAX_BYTES set to B, every (element size 1/2/4/8 incl. BOOL/REAL/LREAL and a signed/unsigned pair, tag length N, start i, count n<=N-i, '
+    'text': 'Writes also include values that compare equal to what is stored but encode differently (signed zeros over zeros), so that "stores exactly those values" is judged on the encoded value. With the reply budget Logix.MAX_BYTES set to B, every (element size 1/2/4/8 incl. BOOL/REAL/LREAL and a signed/unsigned pair, tag length N, start i, count n<=N-i, '
             'B in 1..3*size+1) is driven as a complete Read Tag Fragmented transfer: the harness advances the byte offset by the data received until status 0x00. Each reply must be 0x06 or '
             '0x00, carry >=1 whole element and <= ceil(B/size) elements, 0x00 exactly when the range is exhausted, at most n fragments, and the concatenation must equal the requested slice of '
             'the values written beforehand. Write Tag Fragmented: every two-piece tiling and seeded k-piece tilings (in order and shuffled) must store exactly the values and leave all other '
@@ -23,7 +23,7 @@ LEVEL = META['level']
 RULE = ('a case = one complete fragmented transfer (read: type,N,i,n,B; write: type,N,i,n,tiling); enumerated completely in the scaled-down space, seeded for large transfers; '
         'distinct by that tuple; non-trivial = more than one fragment was needed or the range did not start at 0')
 ASSUMPTIONS = ['Logix.MAX_BYTES is the documented user-alterable reply budget', 'Read Tag Fragmented is sent inside the 0x52 Unconnected Send wrapper (a bare 0x52 is parsed as the wrapper by design)']
-REQUIRED = ['read:transfers', 'read:multi-fragment', 'read:status-0x06', 'read:status-0x00', 'read:budget-smaller-than-element', 'write:tilings', 'write:shuffled',
+REQUIRED = ['write:equal-but-not-identical', 'read:transfers', 'read:multi-fragment', 'read:status-0x06', 'read:status-0x00', 'read:budget-smaller-than-element', 'write:tilings', 'write:shuffled',
             'monitor:reassembly', 'monitor:progress', 'monitor:untouched-elements', 'large:transfers']
 TIMEOUT = {'quick': 300, 'thorough': 2400}
 SOFT = {'quick': 35, 'thorough': 900}
@@ -135,12 +135,13 @@ class Driver:
             ctx.count('read:budget-smaller-than-element')
         return frags
 
-    def write_tiling(self, i, n, pieces, order, salt):
+    def write_tiling(self, i, n, pieces, order, salt, vals=None):
         """pieces: list of (a, b) element sub-ranges of [0,n) tiling it; order: permutation of piece indexes"""
         ctx = self.ctx
         wit = {'type': self.tname, 'N': self.N, 'start': i, 'count': n, 'pieces': pieces, 'order': order}
         before = list(self.model.tags['t'].values)
-        vals = distinct_values(self.tname, n, salt)
+        if vals is None:
+            vals = distinct_values(self.tname, n, salt)
         for k in order:
             a, b = pieces[k]
             req = {'path': {'segment': [{'symbolic': 'T'}, {'element': i}]},
@@ -219,6 +220,18 @@ def run(ctx):
                                     rng.shuffle(order)
                                     d.write_tiling(i, n, pieces, order, salt=k + 1)
                                     ctx.enumerated(1)
+                    if t in ('REAL', 'LREAL'):
+                        # values that compare equal to what is stored but are different values on the wire (signed zero): "stores exactly
+                        # those values" is about the encoded value, not about ==
+                        for stored, written in ((0.0, -0.0), (-0.0, 0.0)):
+                            for n in range(1, N + 1):
+                                d.set_all([stored] * N)
+                                vals = [written if (j + n) % 3 else stored for j in range(n)]
+                                for pieces in tilings(n, rng, True)[:3]:
+                                    d.write_tiling(0, n, pieces, list(range(len(pieces))), salt=k, vals=vals)
+                                    ctx.count('write:equal-but-not-identical')
+                                    ctx.enumerated(1)
+                        d.set_all(distinct_values(t, N))
             finally:
                 d.close()
     # large transfers at the default budget and a few others
